@@ -21,6 +21,7 @@ import (
 	"strconv"
 
 	v1 "github.com/fatedier/frp/pkg/config/v1"
+	"github.com/fatedier/frp/pkg/util/verifhook"
 )
 
 func init() {
@@ -73,6 +74,7 @@ func (pxy *TCPProxy) Run() (remoteAddr string, err error) {
 				pxy.rc.TCPPortManager.Release(pxy.realBindPort)
 			}
 		}()
+		verifhook.At("server.proxy.tcp.afterAcquire", pxy.name, pxy.realBindPort)
 		listener, errRet := net.Listen("tcp", net.JoinHostPort(pxy.serverCfg.ProxyBindAddr, strconv.Itoa(pxy.realBindPort)))
 		if errRet != nil {
 			err = errRet
